@@ -18,26 +18,27 @@ Section Lookup.
                 end
     end.
 
+  (* what the walk does with one parent edge; rec is the walk itself one level down *)
+  Definition lstep (rec : bool -> list node -> node -> option (option node * list node)) (static : bool)
+             (p : pnode) (uv1 : list node) : option (option node * list node) :=
+    if pn_extend p then
+      let n' := norm builtin (pn_node p) in
+      if has n' false && static then Some (Some n', uv1)
+      else if static then rec false uv1 n' else Some (None, uv1)
+    else if pn_include p then
+      let n' := norm builtin (pn_node p) in
+      if has n' false && negb static then Some (Some n', uv1)
+      else if negb static then rec false uv1 n' else Some (None, uv1)
+    else if has (pn_node p) static then Some (Some (pn_node p), uv1)
+    else rec static uv1 (pn_node p).
+
   (* None = out of fuel; Some (Some x, _) = found in class / module x *)
   Fixpoint plookup (fuel : nat) (m : inh_map) (static : bool) (uv : list node) (n : node) : option (option node * list node) :=
     match fuel with
     | O => None
     | S f =>
         if negb (mem_fc n uv) then Some (None, uv)
-        else
-          first_found
-            (fun p uv1 =>
-               if pn_extend p then
-                 let n' := norm builtin (pn_node p) in
-                 if has n' false && static then Some (Some n', uv1)
-                 else if static then plookup f m false uv1 n' else Some (None, uv1)
-               else if pn_include p then
-                 let n' := norm builtin (pn_node p) in
-                 if has n' false && negb static then Some (Some n', uv1)
-                 else if negb static then plookup f m false uv1 n' else Some (None, uv1)
-               else if has (pn_node p) static then Some (Some (pn_node p), uv1)
-               else plookup f m static uv1 (pn_node p))
-            (parents_of m n) (remove_fc n uv)
+        else first_found (lstep (plookup f m) static) (parents_of m n) (remove_fc n uv)
     end.
 
   (* where Ruby looks: up the superclass chain, and in the modules mixed in along it *)
